@@ -40,16 +40,6 @@ Section Size.
     rewrite forallb_forall in Hnb. specialize (Hnb _ Hin). cbn in Hnb. apply negb_true_iff in Hnb. exact Hnb.
   Qed.
 
-  Lemma wf_variant_ok n vs vok kp id vt : lookup S n = Some (DUnion vs vok kp) -> In (id, vt) vs ->
-    is_void (resolve S vt) = false -> ttype_ok S vt = true.
-  Proof.
-    intros Hl Hin Hnv. apply (wf_lookup S Hwf) in Hl. cbn [decl_ok] in Hl.
-    apply andb_prop in Hl as [_ Hl]. destruct vs as [|[i0 t0] r]; [destruct Hin|].
-    apply andb_prop in Hl as [Hl H0]. apply andb_prop in Hl as [_ Hr].
-    destruct Hin as [E|Hin].
-    - injection E as -> ->. rewrite Hnv in H0. exact H0.
-    - rewrite forallb_forall in Hr. apply (Hr _ Hin).
-  Qed.
 
   Theorem size_as_len v : forall t, has_type S t v = true ->
     forall c, size_ty S p t v c = len_val p (to_tval S t v) c.
@@ -129,7 +119,7 @@ Section Size.
       intros c1. rewrite lseq_ret0_r, (to_tval_ttype _ _ _ Ht).
       apply lseq_ext; [|reflexivity]. apply lseq_ext; [|intros c2; apply IHv; exact Ht].
       pose proof (find_variant_in _ _ _ Ev) as Hin.
-      apply l_field_begin_size_ttype; [eapply wf_variant_ok; eauto|eapply no_tdbool_variant; eauto].
+      apply l_field_begin_size_ttype; [eapply (wf_variant_ok S Hwf); eauto|eapply no_tdbool_variant; eauto].
     - discriminate.
   Qed.
 End Size.
